@@ -64,11 +64,14 @@ type C15Action struct {
 
 // C15Session is one replayable case.
 type C15Session struct {
-	Name       string      `json:"name"`
-	PackedRefs bool        `json:"packed_refs"`   // the host's refs are packed before git-bug touches it
-	Detached   bool        `json:"detached_head"` // HEAD is detached
-	OddAuthor  bool        `json:"odd_author"`    // author.name / committer.name with characters stock git strips from identities
-	Actions    []C15Action `json:"actions"`
+	Name       string `json:"name"`
+	PackedRefs bool   `json:"packed_refs"`   // the host's refs are packed before git-bug touches it
+	Detached   bool   `json:"detached_head"` // HEAD is detached
+	OddAuthor  bool   `json:"odd_author"`    // author.name / committer.name with characters stock git strips from identities
+	// LongLived: "repo" or "cache" — the ll-* actions go through ONE repository handle (a GoGitRepo, or a RepoCache
+	// on top of one) that stays open while the foreign actor (env-*, cli-*, peer-work) works on the same repository
+	LongLived string      `json:"long_lived,omitempty"`
+	Actions   []C15Action `json:"actions"`
 }
 
 // C15Result is what the monitor observed in one session.
@@ -248,7 +251,7 @@ func c15Sessions(r *mon.Run) []C15Session {
 		s.Actions = append(s.Actions, C15Action{Kind: "cli-pull", Remote: "origin"}, C15Action{Kind: "cli-push", Remote: "origin"})
 		out[i] = s
 	}
-	return out
+	return append(out, c15LongLivedSessions(r)...)
 }
 
 // ---- session state ----------------------------------------------------------------
@@ -269,6 +272,14 @@ type c15Sess struct {
 	selected bool
 	// inValidity is set while stock git judges the result of the session
 	inValidity bool
+	// long-lived-handle sessions (c15_longlived.go)
+	ll      *c15Handle
+	envSeq  int
+	damaged bool // a finding about invalid git data in the host has been recorded
+	// expect is the foreign state as only the foreign actor (env-* actions) has moved it
+	expect            *c15Foreign
+	foreignTouchedCfg map[string]bool
+	foreignTouchedRef map[string]bool
 }
 
 func (s *c15Sess) count(k string, n int) { s.res.Counters[k] += n }
@@ -286,6 +297,11 @@ func (s *c15Sess) find(key, what string) {
 	if s.sc.OddAuthor && s.inValidity && c15IdentLine.MatchString(what) {
 		// the same failure in a session with the identity-hostile author configuration is its own class
 		key += "[odd-author-config]"
+	}
+	for _, p := range []string{"fsck-error:", "ref-to-missing-object:", "broken-ref-written:"} {
+		if strings.HasPrefix(key, p) {
+			s.damaged = true // stock git may refuse to work on this repository from now on
+		}
 	}
 	for _, f := range s.res.Findings {
 		if strings.HasPrefix(f, key+"|") {
@@ -463,9 +479,33 @@ func sha(b []byte) string {
 	return hex.EncodeToString(h[:10])
 }
 
-// refsOf lists the refs stock git sees, and the refs it refuses to see ("ignoring broken ref").
+// refsOf lists the refs stock git sees (value: "<object id> <object type> <symref>"), and the refs it refuses to
+// see ("ignoring broken ref"). A ref whose object is not in the repository has the object type "MISSING" (the
+// usual `git for-each-ref` with %(objecttype) dies on such a repository: "fatal: missing object ... for <ref>").
 func (s *c15Sess) refsOf(dir string) (map[string]string, []string) {
 	out, errOut, code, err := s.run(dir, "/usr/bin/git", "for-each-ref", "--format=%(refname) %(objectname) %(objecttype) %(symref)")
+	if err == nil && code != 0 && strings.Contains(errOut, "missing object") {
+		out, errOut, code, err = s.run(dir, "/usr/bin/git", "for-each-ref", "--format=%(refname) %(objectname) ? %(symref)")
+		if err == nil && code == 0 {
+			var fixed []string
+			for _, l := range strings.Split(strings.TrimSpace(out), "\n") {
+				f := strings.SplitN(l, " ", 4)
+				if len(f) < 3 {
+					continue
+				}
+				typ, _, tcode, terr := s.run(dir, "/usr/bin/git", "cat-file", "-t", f[1])
+				if terr != nil {
+					panic(c15Harness{terr})
+				}
+				f[2] = strings.TrimSpace(typ)
+				if tcode != 0 {
+					f[2] = "MISSING"
+				}
+				fixed = append(fixed, strings.Join(f, " "))
+			}
+			out = strings.Join(fixed, "\n")
+		}
+	}
 	if err != nil || code != 0 {
 		panic(c15Harness{fmt.Errorf("git for-each-ref in %s: %v exit %d: %s", dir, err, code, errOut)})
 	}
@@ -737,6 +777,14 @@ func (s *c15Sess) compare(act string, a, b *c15Snap) {
 			s.find("broken-ref-written:"+cls, fmt.Sprintf("stock git: \"ignoring broken ref %s\" (loose ref file holds %d bytes %q; value before: %q)%s", name, len(content), content, a.Refs[name], where))
 		}
 	}
+	// a ref that points at an object the repository does not hold is not valid git data either (stock git
+	// for-each-ref, fsck, gc and push of that ref fail)
+	for name, w := range b.Refs {
+		if c15RefMissing(w) && !c15RefMissing(a.Refs[name]) {
+			s.count("refs_to_missing_objects_seen", 1)
+			s.find("ref-to-missing-object:"+c15RefOwner(name), fmt.Sprintf("%s = %q: stock git does not find that object in the repository (value before: %q)%s", name, w, a.Refs[name], where))
+		}
+	}
 	if a.Head != b.Head {
 		s.find("head-changed", fmt.Sprintf("HEAD %q -> %q%s", a.Head, b.Head, where))
 	}
@@ -756,12 +804,12 @@ func (s *c15Sess) compare(act string, a, b *c15Snap) {
 	}
 	for _, kv := range rem {
 		if sec := configSection(kv); sec != "git-bug" {
-			s.find("foreign-config-key-changed:"+sec, fmt.Sprintf("config entry %q disappeared (entries added in the same step: %q)%s", kv, add, where))
+			s.find(s.configFindingKey(kv), fmt.Sprintf("config entry %q disappeared (entries added in the same step: %q)%s", kv, add, where))
 		}
 	}
 	for _, kv := range add {
 		if sec := configSection(kv); sec != "git-bug" {
-			s.find("foreign-config-key-changed:"+sec, fmt.Sprintf("config entry %q appeared (entries removed in the same step: %q)%s", kv, rem, where))
+			s.find(s.configFindingKey(kv), fmt.Sprintf("config entry %q appeared (entries removed in the same step: %q)%s", kv, rem, where))
 		}
 	}
 	// packed-refs: foreign lines must stay
@@ -786,6 +834,32 @@ func (s *c15Sess) compare(act string, a, b *c15Snap) {
 			}
 		}
 	}
+}
+
+// c15RefMissing: the value refsOf gives to a ref whose object is not there.
+func c15RefMissing(v string) bool {
+	f := strings.Fields(v)
+	return len(f) >= 2 && f[1] == "MISSING"
+}
+
+// c15RefOwner names whose ref it is (finding keys).
+func c15RefOwner(name string) string {
+	if c15AllowedRef.MatchString(name) {
+		if strings.HasPrefix(name, "refs/remotes/") {
+			return "git-bug-remote-tracking"
+		}
+		return "git-bug-namespace"
+	}
+	return refClass(name)
+}
+
+func c15AnyMissing(refs map[string]string) bool {
+	for _, v := range refs {
+		if c15RefMissing(v) {
+			return true
+		}
+	}
+	return false
 }
 
 func allowedBucket(p string) string {
@@ -880,6 +954,9 @@ func (s *c15Sess) libErr(kind string, err error) string {
 		return "ok"
 	}
 	s.count("lib_actions_failed", 1)
+	if os.Getenv("VERIF_C15_TRACE") != "" {
+		fmt.Fprintf(os.Stderr, "trace   %s: %v\n", kind, err)
+	}
 	s.seen("lib_errors", kind+": "+c15ErrClass(err.Error()))
 	return "err"
 }
@@ -988,10 +1065,14 @@ func (s *c15Sess) do(a C15Action, sn *c15Snap) string {
 		default:
 			return s.cli("bridge")
 		}
-	case "env-pack-refs":
-		// stock git packs every ref (git-bug's included): later removals must go through packed-refs
-		s.mustGit(s.host, "pack-refs", "--all")
-		return "ok"
+	}
+	switch {
+	case strings.HasPrefix(a.Kind, "env-"):
+		return s.doEnv(a, sn)
+	case strings.HasPrefix(a.Kind, "ll-"):
+		return s.doLL(a, id)
+	}
+	switch a.Kind {
 	case "lib-edit", "lib-rm", "lib-idmut", "lib-pull", "lib-push", "lib-id-rm":
 		rep, err := s.openLib(s.host)
 		if err != nil {
@@ -1127,8 +1208,13 @@ func (s *c15Sess) fsck(role, dir string) {
 	}
 	s.count("fsck_runs", 1)
 	var bad []string
-	for _, l := range strings.Split(out+"\n"+errOut, "\n") {
+	lines := strings.Split(out+"\n"+errOut, "\n")
+	for i, l := range lines {
 		l = strings.TrimSpace(l)
+		if strings.HasPrefix(l, "broken link from") && i+1 < len(lines) && strings.HasPrefix(strings.TrimSpace(lines[i+1]), "to ") {
+			// one message on two lines: "broken link from tree <id>" / "to blob <id>"
+			l, lines[i+1] = strings.Join(strings.Fields(l+" "+lines[i+1]), " "), ""
+		}
 		switch {
 		case l == "", strings.HasPrefix(l, "dangling "), strings.HasPrefix(l, "Checking "), strings.HasPrefix(l, "notice:"), strings.HasPrefix(l, "unreachable "):
 			continue
@@ -1239,7 +1325,7 @@ func (s *c15Sess) validity() {
 	// A host that already holds a ref stock git calls broken has been reported (broken-ref-written);
 	// fsck, gc and re-reading it would only restate that in other words. Its impact is recorded once.
 	hostBroken := false
-	if end := s.snapshot(); len(end.Broken) > 0 {
+	if end := s.snapshot(); len(end.Broken) > 0 || c15AnyMissing(end.Refs) {
 		hostBroken = true
 		s.count("sessions_ending_with_broken_refs", 1)
 		_, e1, c1, _ := s.run(s.host, "/usr/bin/git", "gc", "-q", "--prune=now")
@@ -1378,6 +1464,7 @@ func runC15Session(sc C15Session) (res C15Result) {
 	os.Setenv("XDG_CONFIG_HOME", filepath.Join(s.home, ".config"))
 	os.Setenv("GIT_CONFIG_NOSYSTEM", "1")
 	defer func() {
+		_ = s.llClose()
 		if s.gitlab != nil {
 			s.gitlab.Close()
 		}
@@ -1403,6 +1490,8 @@ func runC15Session(sc C15Session) (res C15Result) {
 		return
 	}
 	sn = sn2
+	first := c15ForeignOf(sn)
+	s.expect, s.foreignTouchedCfg, s.foreignTouchedRef = &first, map[string]bool{}, map[string]bool{}
 	kinds := map[string]bool{}
 	for i, a := range sc.Actions {
 		outcome := s.do(a, sn)
@@ -1411,20 +1500,43 @@ func runC15Session(sc C15Session) (res C15Result) {
 		}
 		s.count("actions_run", 1)
 		s.seen("action_outcomes", a.Kind+"="+outcome)
+		if os.Getenv("VERIF_C15_TRACE") != "" {
+			fmt.Fprintf(os.Stderr, "trace %s #%d %s = %s\n", sc.Name, i, a.Kind, outcome)
+		}
 		if outcome == "ok" {
 			kinds[a.Kind] = true
 			s.count("ok/"+a.Kind, 1)
 		}
 		after := s.snapshot()
 		if strings.HasPrefix(a.Kind, "env-") {
-			// stock git acting on the host (pack-refs): part of the environment, not judged
+			// stock git acting on the host: the foreign actor, not judged; what it changed is expected from now on
 			s.count("environment_actions", 1)
+			s.foreignActed(sn, after)
 		} else {
 			s.compare(fmt.Sprintf("#%d %s (%s)", i, a.Kind, outcome), sn, after)
 		}
+		if sc.LongLived != "" && len(after.Broken) == 0 && !c15AnyMissing(after.Refs) {
+			// stock git judges what the handle has written so far, after every step
+			s.inValidity = true
+			s.fsck(fmt.Sprintf("host (handle %s; after action #%d %s (%s))", map[bool]string{true: "open", false: "closed"}[s.ll != nil], i, a.Kind, outcome), s.host)
+			s.inValidity = false
+			if res.Inconclusive != "" {
+				return
+			}
+		}
 		sn = after
+		if sc.LongLived != "" && s.damaged {
+			// The host holds invalid git data (reported above). What follows would only be consequences, and go-git
+			// is known to hang when it has to pack a history with a missing object: the session ends here.
+			s.count("sessions_ended_at_first_damage", 1)
+			break
+		}
+	}
+	if err := s.llClose(); err != nil {
+		s.seen("lib_errors", "ll-close(end): "+c15ErrClass(err.Error()))
 	}
 	s.count("bugs_max", len(s.bugIds(sn)))
+	s.checkExpectedForeign(sn)
 	s.validity()
 	var ks []string
 	for k := range kinds {
@@ -1432,6 +1544,9 @@ func runC15Session(sc C15Session) (res C15Result) {
 	}
 	sort.Strings(ks)
 	res.Shape = fmt.Sprintf("packed=%v detached=%v odd-author=%v actions=%d kinds=%s", sc.PackedRefs, sc.Detached, sc.OddAuthor, len(sc.Actions)/5*5, mon.Hash(ks...))
+	if sc.LongLived != "" {
+		res.Shape = "long-lived=" + sc.LongLived + " " + res.Shape
+	}
 	return
 }
 
@@ -1455,6 +1570,20 @@ func runC15(tier, replay string) int {
 		scs = []C15Session{rep.Case}
 	} else {
 		scs = c15Sessions(r)
+		if only := os.Getenv("VERIF_C15_ONLY"); only != "" {
+			// debugging aid: one session of the list by name (such a run cannot reach the required number of cases);
+			// VERIF_C15_DUMP=file additionally writes it as a replay file
+			var keep []C15Session
+			for _, sc := range scs {
+				if sc.Name == only {
+					keep = append(keep, sc)
+					if f := os.Getenv("VERIF_C15_DUMP"); f != "" {
+						_ = os.WriteFile(f, []byte(mon.JSON(map[string]any{"case": sc})), 0o644)
+					}
+				}
+			}
+			scs = keep
+		}
 	}
 	outcomes := runBatches[C15Session, C15Result]("", "c15", scs, 1, 240*time.Second, nil)
 	for i, oc := range outcomes {
@@ -1473,9 +1602,22 @@ func runC15(tier, replay string) int {
 		if res.HarnessError != "" || res.Inconclusive != "" {
 			r.Case("inconclusive", false)
 			r.Inconclusive(sc.Name + ": " + res.HarnessError + res.Inconclusive)
+			// what was observed before the session had to be given up stays observed
+			for _, f := range res.Findings {
+				parts := strings.SplitN(f, "|", 2)
+				r.Violation(parts[0], parts[1]+" ["+sc.Name+"]", sc)
+			}
 			continue
 		}
-		r.Case(res.Shape, res.Counters["actions_run"] >= 15 && (res.Counters["bugs_on_host_at_end"] > 0 || res.Counters["sessions_ending_with_broken_refs"] > 0) && res.Counters["fsck_runs"] >= 3)
+		nontrivial := res.Counters["actions_run"] >= 15 && (res.Counters["bugs_on_host_at_end"] > 0 || res.Counters["sessions_ending_with_broken_refs"] > 0) && res.Counters["fsck_runs"] >= 3
+		if sc.LongLived != "" {
+			// a long-lived-handle session that never reached one of the interleavings it exists for observed too little
+			nontrivial = nontrivial && res.Counters["ll_actions_ok"] >= 8 && res.Counters["environment_actions"] >= 5 &&
+				res.Counters["ll_config_write_after_foreign_config_change"] >= 1 &&
+				res.Counters["ll_restore_after_foreign_prune"]+res.Counters["ll_bug_written_after_remove_all_and_foreign_prune"] >= 1
+			r.Count("long_lived_sessions", 1)
+		}
+		r.Case(res.Shape, nontrivial)
 		r.Count("sessions", 1)
 		for k, v := range res.Counters {
 			r.Count(k, v)
@@ -1499,8 +1641,18 @@ func runC15(tier, replay string) int {
 	r.Extra("not_driven", "bridge configuration is driven for the gitlab target only (`bridge new` against an in-process simulated GitLab, `bridge rm`, `bridge auth add-token`); github, jira and launchpad need their real APIs")
 	return r.Finish("sessions of 15..40 CLI and library actions (list = f(seed, tier)) on a stock-git host repository (3 commits on main, a feature branch, annotated+lightweight tags, a stash, staged/unstaged/untracked changes, user/core/alias/url/include/multi-valued config, remotes origin and upstream with custom fetch refspecs that are ahead of the host, refs packed in every second session, HEAD detached in every fourth, foreign refs under refs/bugsarchive, refs/identities-old, refs/heads/bugs/*, refs/tags/identities/*, identity-hostile author.name/committer.name config in every sixth); "+
 		"before/after every action: manifest of every file, for-each-ref, HEAD, index, status --porcelain=v2, stash list, config multiset, refs of both remotes, allow-list on the difference; at the end stock git fsck --strict --full on 4 repositories, clone, fetch with fsckObjects, push into a receive.fsckObjects server, gc --prune=now followed by a full re-read incl. attachments; "+
-		"non-trivial = at least 15 actions, a bug present at the end and all fsck runs done; distinct = distinct (packed, odd-author, length class, set of successful action kinds)",
-		r.Pick(4, 60), []string{
+		"non-trivial = at least 15 actions, a bug present at the end and all fsck runs done; distinct = distinct (packed, odd-author, length class, set of successful action kinds). "+
+		"Plus long-lived-handle sessions (quick 6, thorough 60; c15_longlived.go): ONE repository handle (a GoGitRepo in every second session, a RepoCache on top of one in the others) stays open over 30..60 seed-determined actions through it "+
+		"(bug create/edit with attachments, uploads never attached, upload-and-attach of a file uploaded before, StoreString/StoreBool/StoreTimestamp/RemoveAll on git-bug.* keys, bridge configuration and removal, user identity selection, remove, remove-all, pull, push, read-all, re-open) "+
+		"interleaved with a foreign actor on the same repository: stock git config/--unset-all on keys of 9 unrelated sections, remote add/remove, commit, branch, tag, gc --prune=now, prune --expire=now, repack -a -d, pack-refs; git-bug CLI processes (GoGitRepo sessions only: a RepoCache holds the lock); the peer pushing to origin. "+
+		"Every session contains four uninterrupted shapes at seed-determined places: own-key write / foreign config + remote add / own-key write; upload / gc / same upload attached; create / remove-all / gc or prune / create; push / gc / read-all / create / gc or repack / three peer pushes / pull. "+
+		"Same per-action snapshot oracle (foreign actions are not judged); additionally git fsck --strict --full after every action, and at the end the foreign state (config entries outside section git-bug, refs outside git-bug's namespaces, HEAD) must equal the EXPECTED foreign state that only the foreign actor's own differences have moved; "+
+		"such a session is non-trivial only if >= 8 handle actions succeeded, >= 5 foreign actions ran, an own-key write followed a foreign config change through the same handle, and a re-store after a foreign prune (or a bug written after remove-all + prune) happened",
+		r.Pick(8, 100), []string{
+			"long-lived-handle sessions: an action through a handle that was opened before a foreign gc/repack is not required to succeed (recorded in lib_errors), only to leave the host and the git data valid",
+			"long-lived-handle sessions: a blob that was uploaded and not yet attached when the foreign actor ran gc --prune=now is not required to survive; every attaching action stores its files itself right before it commits, with no foreign action in between",
+			"long-lived-handle sessions: the foreign actor never touches section `branch` (class of the open known finding about multi-line values) and writes plain single-line values only; after prune/repack it rewrites the commit-graph as gc does (stock git alone leaves a stale commit-graph there, which fsck reports)",
+			"a long-lived-handle session ends at the first finding about invalid git data in the host (what follows are consequences; go-git can hang when packing a history with a missing object)",
 			"the observer runs stock git with GIT_OPTIONAL_LOCKS=0 and checks on every session that two consecutive snapshots are identical",
 			"object files under .git/objects may be added freely; their validity is judged by git fsck and by re-reading after gc --prune=now",
 			"configuration is compared as the multiset of (key, value) pairs printed by git config --local --list, not byte-wise",
